@@ -14,6 +14,7 @@ inductive Tree where
   | file (c : String)
   | dir (es : List (String × String))      -- entries sorted by name
   | fileOpt (c : String) (extra : Option String)   -- a file output plus a discovered optional output (`<out>.extra`)
+  | filex (c : String)                             -- a regular file with the executable bits set
 deriving DecidableEq, Repr
 
 inductive Cmd where
@@ -25,6 +26,7 @@ inductive Cmd where
   | fg                     -- filegroup over one source file: the output IS the source (no command)
   | opt                    -- like cat; additionally writes `$OUT.extra` (an optional output) iff the result contains "hello"
   | text (content : String) -- `text_file(content=…)`: no command, the output is the content
+  | catx                   -- like cat, then `chmod +x $OUT`
 deriving DecidableEq, Repr
 
 structure Attrs where
@@ -40,10 +42,11 @@ def pathSer : Tree → String
   | .file c => c
   | .dir es => String.join (es.map (·.2))
   | .fileOpt c _ => c          -- optional outputs do not contribute to any hash (build_step.go:726)
+  | .filex c => c              -- fileHash hashes the bytes only: the mode is in no hash (fs/hash.go:253)
 
 def cmdTag : Cmd → String
   | .cat => "cat" | .catfirst => "catfirst" | .mkdir => "mkdir" | .const t => "const:" ++ t
-  | .catn => "catn" | .fg => "fg" | .opt => "opt" | .text t => "text:" ++ t
+  | .catn => "catn" | .fg => "fg" | .opt => "opt" | .text t => "text:" ++ t | .catx => "catx"
 
 /-- Rule pre-image restricted to what the generator varies, concatenated unframed in `ruleHash`'s order
     (label, sources, output, command). -/
@@ -54,6 +57,7 @@ def render : Tree → String
   | .file c => c
   | .dir es => String.join (es.map fun e => "./" ++ e.1 ++ "\n" ++ e.2)
   | .fileOpt c _ => c          -- dependents only see the declared output
+  | .filex c => c
 
 def insertEntry (e : String × String) : List (String × String) → List (String × String)
   | [] => [e]
@@ -72,6 +76,7 @@ def exec (a : Attrs) (ins : List (String × Tree)) : Tree :=
   | .catn => .file (String.join (ins.map fun p => p.1 ++ "\n" ++ render p.2))
   | .fg => .file (match ins with | [] => "" | p :: _ => render p.2)
   | .text t => .file t
+  | .catx => .filex (String.join (ins.map fun p => render p.2))
   | .opt =>
     let c := String.join (ins.map fun p => render p.2)
     .fileOpt c (if (c.splitOn "hello").length > 1 then some c else none)
